@@ -25,6 +25,7 @@ package verifharness
 
 import (
 	"fmt"
+	"os"
 	"strconv"
 	"strings"
 	"sync"
@@ -52,6 +53,7 @@ type fsParent struct {
 
 	listCalls int
 	lastList  []metav1.Object // what the most recent List() call returned
+	listErr   error           // the next List() call fails with this error
 	gate      chan struct{}   // non-nil: the next List() call blocks until it is closed
 	atCall    bool            // ... and returns the snapshot taken when it was called (else: when released)
 	onList    chan int
@@ -103,10 +105,20 @@ func (c fsParentCache) List() ([]metav1.Object, error) {
 	g, atCall := p.gate, p.atCall
 	p.gate = nil
 	snap := c.snapshotLocked()
+	lerr := p.listErr
+	p.listErr = nil
 	p.mu.Unlock()
 	select {
 	case p.onList <- k:
 	default:
+	}
+	if lerr != nil {
+		// the parent's cache has stopped (its Events() channel is still open): what a parent in the
+		// middle of shutting down answers
+		if g != nil {
+			<-g
+		}
+		return nil, lerr
 	}
 	if g != nil {
 		<-g
@@ -219,6 +231,17 @@ type fsCfg struct {
 	maxBurst           int
 	maxDuring          int
 	delOneIn           int // a publish is a delete with probability 1/delOneIn
+	listFailOneIn      int // 0: never; else a listing step fails with probability 1/listFailOneIn
+}
+
+// fsModelProp: the model covers the filtered-view property (C06) and the
+// readiness property (C08) of the same component; the driver runs it once for
+// each and tells it which one it reports under.
+func fsModelProp() string {
+	if p := os.Getenv("VERIF_FSMODEL_PROP"); p != "" {
+		return p
+	}
+	return "C06"
 }
 
 type fsFailer interface {
@@ -231,6 +254,7 @@ type fsCaseInfo struct {
 	refilters  int
 	deferReady bool
 	baseline   bool
+	listFailed bool
 }
 
 func TestC06_FilterSubscriptionModel(t *testing.T) {
@@ -238,13 +262,13 @@ func TestC06_FilterSubscriptionModel(t *testing.T) {
 		keys:      [][2]string{{"a", "p"}, {"a", "q"}, {"b", "p"}, {"b", "q"}},
 		labelSets: []map[string]string{nil, {"x": "1"}, {"x": "2"}},
 		filters:   []int{0, 1, 2, 3, 4, 5, 6, 7, 8, 9},
-		minSteps:  3, maxSteps: 16, maxInitial: 4, maxBurst: 6, maxDuring: 3, delOneIn: 4,
+		minSteps:  3, maxSteps: 16, maxInitial: 4, maxBurst: 6, maxDuring: 3, delOneIn: 4, listFailOneIn: 12,
 	}
 	rapid.Check(t, func(t *rapid.T) {
 		info := fsModelCase(t, fsDrawScript(fsRapidChooser{t}, cfg), rapid.Bool().Draw(t, "perturb"), rapid.Uint64().Draw(t, "pseed"))
-		statCase("C06", hashString("fsmodel;"+strings.Join(info.hist, ";")), info.windows > 0 && info.refilters > 0, func() interface{} {
+		statCase(fsModelProp(), hashString("fsmodel;"+strings.Join(info.hist, ";")), info.windows > 0 && info.refilters > 0, func() interface{} {
 			return map[string]interface{}{"mode": "filter subscription over a harness-owned parent", "history": info.hist}
-		}, "filter_subscription_model", fmt.Sprintf("fsmodel_for_filter=%v", info.deferReady), fmt.Sprintf("fsmodel_list_windows=%d", min(info.windows, 3)), fmt.Sprintf("fsmodel_exact_baseline=%v", info.baseline))
+		}, "filter_subscription_model", fmt.Sprintf("fsmodel_for_filter=%v", info.deferReady), fmt.Sprintf("fsmodel_list_windows=%d", min(info.windows, 3)), fmt.Sprintf("fsmodel_exact_baseline=%v", info.baseline), fmt.Sprintf("fsmodel_parent_listing_failed=%v", info.listFailed))
 	})
 }
 
@@ -307,6 +331,7 @@ type fsStep struct {
 	kind         string // publish, burst, parentReady, refilter, noop
 	pubs         []fsPub
 	gate, atCall bool
+	listFails    bool // the parent's cache has stopped: this step's List() of the parent fails
 	during       []fsPub
 	f            int
 }
@@ -337,6 +362,9 @@ func fsDrawScript(ch fsChooser, cfg fsCfg) fsScript {
 	}
 	parentReady, supplied := false, !sc.deferReady
 	window := func(st *fsStep) {
+		if cfg.listFailOneIn > 0 && ch.intn("listFails", 0, cfg.listFailOneIn-1) == 0 {
+			st.listFails = true
+		}
 		st.gate = ch.intn("gate", 0, 1) == 1
 		if st.gate {
 			st.atCall = ch.intn("snapshotAtCall", 0, 1) == 1
@@ -379,6 +407,7 @@ func fsModelCase(t fsFailer, sc fsScript, perturb bool, pseed uint64) fsCaseInfo
 	fam := treeFilterFamily()
 	{
 		p := newFsParent()
+		p.closeTerminates = true // a node that shuts down closes its parent subscription, which then ends
 		deferReady := sc.deferReady
 		cur := sc.f0
 		if deferReady {
@@ -405,7 +434,7 @@ func fsModelCase(t fsFailer, sc fsScript, perturb bool, pseed uint64) fsCaseInfo
 		terminate := p.terminate
 		defer terminate()
 		fail := func(format string, args ...interface{}) {
-			t.Fatalf("C06 violation: %s\n  history: %s", fmt.Sprintf(format, args...), strings.Join(hist, "; "))
+			t.Fatalf("%s violation: %s\n  history: %s", fsModelProp(), fmt.Sprintf(format, args...), strings.Join(hist, "; "))
 		}
 		h("for-filter=%v initial filter=%d parent holds %d objects", deferReady, cur, len(p.state))
 		parentReady := false
@@ -500,8 +529,44 @@ func fsModelCase(t fsFailer, sc fsScript, perturb bool, pseed uint64) fsCaseInfo
 		}
 		// trigger runs op (which may make the node list its parent) with the next List() held at a gate
 		// while `during` events are published; returns whether a List call was caught
+		listFailed := false
 		trigger := func(name string, op func(), apply func(), st fsStep, expectList bool) {
 			gated := st.gate
+			if st.listFails && expectList {
+				// the parent's cache has already stopped when the node lists it: the node cannot sync, so it
+				// must shut down - never become (or pretend to stay) synced on an empty listing
+				wasReadyBefore := isClosedCh(fs.Ready())
+				p.mu.Lock()
+				p.listErr = kcache.ErrNotRunning
+				p.mu.Unlock()
+				h("%s: the parent's cache has stopped, List() fails", name)
+				opDone := make(chan struct{})
+				go func() { op(); close(opDone) }()
+				select {
+				case <-fs.Done():
+				case <-time.After(wedgeBoundNow()):
+					fail("WEDGE: %s: the listing of the parent failed (its cache has stopped) but the filter subscription did not shut down (Ready() closed: %v)", name, isClosedCh(fs.Ready()))
+				}
+				select {
+				case <-opDone:
+				case <-time.After(wedgeBoundNow()):
+					fail("WEDGE: %s did not return after the subscription shut down", name)
+				}
+				if !wasReadyBefore && isClosedCh(fs.Ready()) {
+					objs, _ := fs.Cache().List()
+					fail("%s: the listing of the parent failed, yet Ready() closed (cache read after Ready: %v; the parent holds %d objects)", name, keyVersions(objs), len(p.state))
+				}
+				select {
+				case <-n.eof:
+				case <-time.After(wedgeBoundNow()):
+					fail("WEDGE: %s: the subscription is done but its Events() channel never closed", name)
+				}
+				if atomic.LoadInt32(&p.closes) == 0 {
+					fail("%s: the filter subscription shut down without closing its parent subscription", name)
+				}
+				listFailed = true
+				return
+			}
 			wasReady := modelReady()
 			quietBefore := len(p.evch) == 0
 			during := 0
@@ -597,12 +662,21 @@ func fsModelCase(t fsFailer, sc fsScript, perturb bool, pseed uint64) fsCaseInfo
 				}
 				trigger(fmt.Sprintf("Refilter(%d -> %d)", cur, next), func() { err = fs.Refilter(wrapFilter(fam[next])) }, func() { cur = next }, st,
 					parentReady && !filter.FiltersEqual(curFilter, wrapFilter(fam[next])))
-				if err != nil {
+				if err != nil && !listFailed {
 					fail("Refilter on a live subscription failed: %v", err)
 				}
 				refilters++
 			}
+			if listFailed {
+				break
+			}
 			check(fmt.Sprintf("after step %d", i))
+		}
+		if listFailed {
+			if c, dump := waitLibGoroutinesAtMost(before, wedgeBoundNow()); c > before {
+				fail("%d library goroutines left after the subscription shut down on a failed listing:\n%s", c-before, dump)
+			}
+			return fsCaseInfo{hist: hist, windows: windows, refilters: refilters, deferReady: deferReady, baseline: n.mirrorOn, listFailed: true}
 		}
 		// finish: make it ready if it is not, final check, shutdown
 		if !parentReady {
